@@ -868,10 +868,22 @@ func (ctx Ctx) selectExpr(e *ast.SelectorExpr) coq.Expr {
 	// If it is, we need to translate to 'StructName__FuncName varName' instead
 	// of a struct access
 	_, isFuncType := (ctx.typeOf(e)).(*types.Signature)
+	if sel, isSel := ctx.info.Selections[e]; isFuncType && isSel && sel.Kind() == types.FieldVal {
+		// a field that holds a function is a field like any other
+		isFuncType = false
+	}
 	if isFuncType {
-		m := coq.MethodName(structInfo.name, e.Sel.Name)
+		recvTy := selectorType
+		if pt, ok := recvTy.(*types.Pointer); ok {
+			recvTy = pt.Elem()
+		}
+		named, isNamed := recvTy.(*types.Named)
+		if !isNamed {
+			ctx.unsupported(e, "method value on %v", selectorType)
+		}
+		m := coq.MethodName(ctx.qualifiedName(named.Obj()), e.Sel.Name)
 		ctx.dep.addDep(m)
-		return coq.NewCallExpr(coq.GallinaIdent(m), ctx.expr(e.X))
+		return coq.NewCallExpr(ctx.coqRecurFunc(m, e.Sel), ctx.expr(e.X))
 	}
 	if ok {
 		return ctx.structSelector(structInfo, e)
